@@ -17,10 +17,6 @@ set_option linter.unusedVariables false
 namespace Zk.C17
 open Zk.IA Zk.Cl Zk.ClSpok
 
-/-- one ok-inversion step through a bind, replacing the hypothesis. -/
-local macro "bstep " h:ident " with " a:ident t:ident ha:ident : tactic =>
-  `(tactic| (obtain ⟨$a, $t, $ha, hnew__⟩ := bind_ok_inv $h; clear $h; rename' hnew__ => $h))
-
 /-! ### 5. the proof structures carry no commitment randomness -/
 
 theorem pokMiLoop_no_opening (cs : Suite) (cpk : CommitmentPK) (msgs : List Int) (U : List Nat)
